@@ -1,15 +1,16 @@
 def _post(ctx):
     # the parser engine itself as a Gallina interpreter (DESIGN.md 6.21): translator + correspondence with the
-    # root MatchResult of the real parser, and the span-bounds theorem (first clause of wf) for every combinator
+    # root MatchResult of the real parser; wf_safe=True: the side condition of Pem_parse_keeps_every_token
+    # (Props/C02.v) is evaluated on every dumped graph (coq/gen/PemWf_<d>.v)
     import cpem
-    cpem.pem_stage(ctx, with_cases=True)
+    cpem.pem_stage(ctx, with_cases=True, wf_safe=True)
 
 
 CFG = dict(
     post=_post,
     prop="C02", level="proof", harness="c02",
     props_files=["theories/Props/C02.v", "theories/Props/Pem.v"], corr_file="theories/Corr/C02.v", corr_module="Corr.C02",
-    extra_targets=["theories/Corr/Pem.vo"],   # imported by the generated coq/gen/PemGrammar_<d>.v of the Pem stage (absent in a fresh clone / after make clean)
+    extra_targets=["theories/Corr/Pem.vo", "theories/Pem/WfRoot.vo"],   # imported by the generated coq/gen/PemGrammar_<d>.v of the Pem stage (absent in a fresh clone / after make clean)
     groups={"root": False, "append": False, "wrap": False},
     show_fn={"root": "model_root", "append": "model_append", "wrap": "model_wrap"},
     shard=120,
@@ -19,12 +20,16 @@ CFG = dict(
               "the real parser on recorded (tokens, root MatchResult) + direct observation leaves(tree) == lexer tokens "
               "+ direct observation of the second sentence: every code leaf outside the unparsable nodes that still has its lexer kind is "
               "accepted under that kind by some terminal parser of the dialect (terminals re-tag what they match), else it was kept silently",
-    level_text="Pem (DESIGN 6.21): the combinator engine is also modelled, as a Gallina interpreter over the dumped grammar graphs, validated on every run against the root MatchResult of the real parser (4 dialects quick / 13 thorough); Pem_match_bounds / Pem_root_bounds prove for every grammar and token list that every match result satisfies idx <= start <= end <= len (the span clause of wf). The remaining clauses of wf stay a monitored hypothesis (they are false for arbitrary graphs). "
+    level_text="Pem (DESIGN 6.21): the combinator engine is also modelled, as a Gallina interpreter over the dumped grammar graphs, validated on every run against the root MatchResult of the real parser (4 dialects quick / 13 thorough). "
+               "Pem_match_node_wf proves, for every grammar graph that satisfies the decidable side condition wf_safe_b (whatever can close a bracket - in a Bracketed node or in the dialect's bracket set - is a one-code-token String/MultiString parser behind Refs), "
+               "every token map, regex oracle, fuel, node, start index and terminator context, that every successful match of the interpreter is well-formed (Apply.Model.wf: children nested, non-overlapping, inserts inside the span and outside the children, named nodes non-empty, Newtype over one token); "
+               "Pem_parse_root_wf_root gives wf_root for the root match and Pem_parse_keeps_every_token composes it with C02_root: if the interpreter answers with a match, root_parse builds a File tree whose leaves are exactly all tokens in order. "
+               "wf_safe_b is evaluated by vm_compute on every dumped dialect graph on every run (coq/gen/PemWf_<d>.v, with the theorem instantiated for the dialect); without it the statement is false (Pem_wf_arbitrary_graph_refuted, Pem_wf_greedy_bracket_refuted: vm_compute witnesses with duplicated leaves). "
                "C02_apply_leaves / C02_root / C02_unparsable_kept / C02_append_WF / C02_wrap_WF are closed Coq theorems for every token "
                "array and every well-formed MatchResult (unbounded depth and width): apply never panics and its non-meta leaves are "
                "exactly the token slice of its span, in order, each once; root_parse returns a File tree whose non-meta leaves are "
-               "exactly all tokens (unmatched tail under Unparsable / trailing File node) or the grammar's parse error. "
-               "That the 13 grammars only produce well-formed matches is a monitored (blocking) hypothesis, not proved.",
+               "exactly all tokens (unmatched tail under Unparsable) or the grammar's parse error. "
+               "That the real engine behaves like the interpreter is sampled correspondence (Pem stage); well-formedness of every real root match stays a monitored (blocking) hypothesis as a cross-check of that tie.",
     level_note="Trusted: Coq kernel; hand-written model tied by sampled correspondence (whole-tree comparison: kinds, structure, leaf ids) "
                "on every recorded root match of <= 260 tokens; the combinator engine and the grammars are an oracle whose results are "
                "recorded and checked against WF on every run. Panics inside the grammar (dangling keyword references, C14) are known findings.",
@@ -38,7 +43,7 @@ CFG = dict(
          "and parsed by Parser::parse; the recorded root MatchResult and token array are replayed through the Gallina root_parse and the "
          "resulting tree compared with the real tree; append/wrap are replayed on sibling sub-matches. "
          "non-trivial = the recorded match has >= 3 nodes; distinct = distinct (tokens, match, tree) terms",
-    assumptions=["H_WF_root_match: every MatchResult returned by the root grammar is well-formed (Apply.Model.wf_root) - monitored on every parse, blocking",
+    assumptions=["H_WF_root_match: every MatchResult returned by the root grammar is well-formed (Apply.Model.wf_root) - proved for the interpreter of the engine on every graph with wf_safe_b (Pem_parse_root_wf_root; wf_safe_b evaluated on every dumped dialect graph), and monitored on every real parse, blocking",
                  "token ids produced by the lexer are pairwise distinct and tokens are leaves (monitored, blocking)",
                  "the tree is compared with the tokens the lexer produced, not with the raw input (lexer losslessness is C01)"],
 )
